@@ -184,6 +184,18 @@ func machines(seed int64, nRandom int) []gen.NetSpec {
 			ms = append(ms, n)
 		}
 	}
+	// machines simulated with a per-opcode delay map (one-point distributions: the trace stays a
+	// function of the machine; the map is shared by all processors of the VM)
+	for k := 2; k <= 6; k++ {
+		n := gen.Chain(k, 8, []string{"inc r0", "cpy r1 r0"}, 1, 1)
+		n.Family = fmt.Sprintf("chain%d-delays", k)
+		ms = append(ms, n)
+	}
+	for k := 2; k <= 3; k++ {
+		n := gen.FanOut(k, 16, 1, []int{1, 0, 2}, false)
+		n.Family = fmt.Sprintf("fanout%d-delays", k)
+		ms = append(ms, n)
+	}
 	rng := hx.RNG(seed, "c09machines")
 	for i := 0; i < nRandom; i++ {
 		pool := []string{"add", "mult", "inc", "dec", "cpy"}
@@ -220,6 +232,10 @@ func workload(run *evid.Run, tier string, race bool) {
 			continue
 		}
 		c := caseT{Net: n, Env: randEnv(rng, n, 12), Ticks: ticks}
+		if strings.HasSuffix(n.Family, "-delays") {
+			c.Env.Delays = map[string]int{"inc": 2, "cpy": 1, "i2rw": 1, "r2owa": 3}
+			c.Env.DelayWeight = []float32{1, 3, 0.5}[len(cases)%3]
+		}
 		cases = append(cases, built{c: c, bm: bm})
 	}
 	orders := map[string]struct{}{}
